@@ -39,6 +39,8 @@ struct Inner {
 #[derive(Debug, Clone)]
 pub struct SimDisk {
     inner: Arc<Mutex<Inner>>,
+    /// "slow disk": virtual milliseconds every persist_entries call takes (0 = immediate)
+    lag_ms: Arc<std::sync::atomic::AtomicU64>,
 }
 
 #[derive(Debug)]
@@ -60,7 +62,11 @@ impl SimDisk {
     pub fn new() -> Self {
         SimDisk {
             inner: Arc::new(Mutex::new(Inner::default())),
+            lag_ms: Default::default(),
         }
+    }
+    pub fn set_lag_ms(&self, ms: u64) {
+        self.lag_ms.store(ms, std::sync::atomic::Ordering::Relaxed);
     }
     pub fn freeze(&self) {
         self.inner.lock().unwrap().frozen = true;
@@ -82,6 +88,7 @@ impl SimDisk {
                 frozen: false,
                 hard_state_saves: 0,
             })),
+            lag_ms: Default::default(),
         }
     }
     pub fn storage(&self) -> Arc<SimStorage> {
@@ -116,6 +123,10 @@ impl StorageEngine for SimStorage {
 #[async_trait]
 impl LogStore for SimLogStore {
     async fn persist_entries(&self, entries: Vec<Entry>) -> Result<(), Error> {
+        let lag = self.d.lag_ms.load(std::sync::atomic::Ordering::Relaxed);
+        if lag > 0 {
+            tokio::time::sleep(std::time::Duration::from_millis(lag)).await;
+        }
         let mut g = self.d.inner.lock().unwrap();
         if g.frozen {
             return Ok(());
